@@ -48,6 +48,16 @@ class WorldA:
     def violate(self, prop: str, cls: str, msg: str, sig: Optional[str] = None, detail: Any = None) -> None:
         v = Violation(prop, cls, msg, sig, detail)
         self.log.add("VIOLATION", prop, cls, msg)
+        # raised in a task other than the scenario's main task (a harness side task, a wrapped library call), the exception would end
+        # only that task and nobody might ever look at it: make it the run's verdict and end the run
+        try:
+            cur = asyncio.current_task()
+        except RuntimeError:
+            cur = None
+        if cur is not None and self._main_task is not None and cur is not self._main_task and not self._main_task.done():
+            if self._abort is None:
+                self._abort = v
+            self._main_task.cancel()
         raise v
 
     def note(self, prop: str, cls: str, msg: str, sig: Optional[str] = None, detail: Any = None) -> None:
